@@ -154,6 +154,7 @@ def compare(ctx, calls, tag):
     for c in range(0, len(ops), 20000):
         out += common.model(ops[c:c + 20000])
     bad = 0
+    bad_keys = []
     unported = {}
     kinds = {}
     growth = 0
@@ -165,6 +166,7 @@ def compare(ctx, calls, tag):
             continue
         if real != m:
             bad += 1
+            bad_keys.append(k)
             if ctx is not None:
                 ctx.disagree("corr:update_sums:" + tag, "%s: code=%s model=%s" % (o, real[:200], m[:200]))
         if real.startswith(("one ", "many ")):
@@ -175,4 +177,85 @@ def compare(ctx, calls, tag):
         j = next((i for i, k in enumerate(keys) if calls[k].startswith("many ")), len(keys) // 2)
         ctx.sample(dict(op=ops[j], code=calls[keys[j]][:160], model=out[j][:160]))
     return dict(compared=len(ops) - sum(unported.values()), mismatches=bad, unported=unported, kinds=kinds,
-                max_length_growth=growth, ops=ops, out=out)
+                max_length_growth=growth, ops=ops, out=out, bad_keys=bad_keys)
+
+
+# ---- from a disagreeing call on a tree WITH integer literals back to original trees over the basis -------------------------------
+
+def _subtrees(labels, arity):
+    """spans (start, end) of every subtree of a prefix list"""
+    out = []
+
+    def walk(i):
+        j = i + 1
+        for _ in range(arity(labels[i])):
+            j = walk(j)
+        out.append((i, j))
+        return j
+    walk(0)
+    return out
+
+
+def deliteralise(labels, b, cap=24):
+    """Trees over the basis (leaves x / a_k only) whose rewriting can REACH the given intermediate tree: a literal 0 becomes a
+    cancelling difference `u - u`, an integer multiple `k*A` (k = 2, 3) a repeated sum, `-1*A` becomes `0 - A` -> `(u-u) - A`;
+    and - because the fixed-point driver only keeps going while some sister tree still rewrites - one variable/parameter summand
+    is replaced by `log_abs(square(.))` / `log_abs(cube(.))` / `exp(square(.))` when the basis has them.  Used only to SEARCH for
+    an in-quantifier failing input after the update_sums model and the code disagreed on `labels`; every tree found is judged by
+    the ordinary oracle through the real driver."""
+    un, bi = set(b[1]), set(b[2])
+
+    def arity(l):
+        return 2 if l in bi else 1 if l in un else 0
+    if "-" not in bi:
+        return []
+    labels = list(labels)
+    try:
+        if _subtrees(labels, arity)[-1] != (0, len(labels)):
+            return []                                  # not a well-formed prefix list over this basis
+    except IndexError:
+        return []
+
+    def is_int(z):
+        try:
+            int(z); return True
+        except ValueError:
+            return False
+    # 1. remove literals
+    base = []
+    for u in ("a0", "x"):
+        L, ok = [], True
+        i = 0
+        spans = {st: en for st, en in _subtrees(labels, arity)}
+        while i < len(labels):
+            z = labels[i]
+            if z == "*" and "*" in bi and i + 2 in spans and i + 1 < len(labels) and is_int(labels[i + 1]) and int(labels[i + 1]) in (2, 3) and "+" in bi:
+                k = int(labels[i + 1]); A = labels[i + 2:spans[i + 2]]
+                if any(is_int(t) for t in A):
+                    ok = False; break
+                L += ["+"] * (k - 1) + A * k
+                i = spans[i + 2]
+                continue
+            if is_int(z):
+                if int(z) == 0:
+                    L += ["-", u, u]
+                else:
+                    ok = False; break
+            else:
+                L.append(z)
+            i += 1
+        if ok and L not in base and len(L) <= 40:
+            base.append(L)
+    # 2. a sister summand that keeps the driver's loop alive
+    out = list(base)
+    wraps = [w for w in (["log_abs", "square"], ["log_abs", "cube"], ["exp", "square"], ["log_abs", "sqrt_abs"]) if all(t in un for t in w)]
+    for L in base:
+        for (st, en) in _subtrees(L, arity):
+            if en - st == 1 and L[st] in ("x", "a0", "a1") and st > 0 and L[0] in ("+", "-"):
+                for w in wraps:
+                    cand = L[:st] + w + [L[st]] + L[en:]
+                    if cand not in out:
+                        out.append(cand)
+                    if len(out) >= cap:
+                        return out
+    return out
